@@ -126,3 +126,62 @@ package bitcoin_reader
 //@   loop 1
 //@     modifies reads(buffer), repo.list, elems(repo.list), mapof(repo.lookup)
 //@     invariant peersInv(repo) && fresh(repo.lookup) && sameregion(repo.list)
+
+// ---------------------------------------------------------------------------------------------------
+// A peer can do nothing before it is verified (C13); only the BSV chain is followed, node side (C03)
+
+// Whole-package frame conditions (decided by scanning the SSA of every function of this package):
+//@ static writers BitcoinNode.handlers : NewBitcoinNode, (*BitcoinNode).accept, (*BitcoinNode).RequestBlock, (*BitcoinNode).completeBlock, (*BitcoinNode).CancelBlockRequest, (*BitcoinNode).SetBlockHandler, (*BitcoinNode).SetTxHandler [C13]
+//@ static stores-true BitcoinNode.isReady, BitcoinNode.verified : (*BitcoinNode).accept [C13, C03]
+//@ static callfree (*BitcoinNode).handleVersion, (*BitcoinNode).handleVerack, (*BitcoinNode).handleProtoconf, (*BitcoinNode).handlePing, (*BitcoinNode).handleReject, (*BitcoinNode).handleHeadersVerify : HeaderRepository.ProcessHeader, (*TxManager).AddTxID, (*TxManager).AddTx, PeerRepository.Add, PeerRepository.UpdateScore, PeerRepository.UpdateTime through (*BitcoinNode).accept [C13]
+
+//@ trusted func (*BitcoinNode).sendMessage
+//@   ensures ghostv("msgs", n) == old(ghostv("msgs", n)) + 1
+//@   modifies ghost("msgs")
+//@ trusted func (*BitcoinNode).Stop
+//@   ensures ghostv("stops", n) == old(ghostv("stops", n)) + 1
+//@   modifies ghost("stops"), n.connection, n.connectionClosedLocally, n.connectionLock
+
+//@ func NewBitcoinNode
+//@   ensures [C13.handler-table] result != nil && result.handlers != nil && forallv(k, string, has(result.handlers, k) == (k == "version" || k == "verack" || k == "headers" || k == "protoconf" || k == "ping" || k == "reject" || k == "extmsg"))
+//@   ensures [C13.verify-handler,C03.verify-handler] closureIs(result.handlers["headers"], (*BitcoinNode).handleHeadersVerify)
+//@   ensures [C13.extended-handler] closureIs(result.handlers["extmsg"], (*BitcoinNode).handleExtended)
+//@   ensures [C13.not-ready,C03.not-ready] !flag(result.isReady) && !flag(result.verified) && !flag(result.handshakeIsComplete) && !flag(result.isStopped)
+//@   modifies nothing
+
+//@ func (*BitcoinNode).accept
+//@   requires n != nil && n.handlers != nil
+//@   ensures [C13.accept-sets-ready,C03.accept-sets-ready] flag(n.isReady) && flag(n.verified)
+//@   ensures [C13.verify-only-disconnects] old(n.isVerifyOnly) ==> result == nil && ghostv("msgs", n) == old(ghostv("msgs", n)) && ghostv("stops", n) == old(ghostv("stops", n)) + 1
+//@   modifies all
+
+//@ trusted func (*BitcoinNode).sendInitialHeaderRequest
+//@   modifies ghost("msgs"), n.lastHeaderRequest, n.Mutex
+//@ trusted func buildAddressesMessage
+//@   modifies nothing
+
+// wire.Message is implemented by the dependency's message types: environment contracts.
+//@ ufunc maxPayload(msg wire.Message) uint64
+//@ iface github.com/tokenized/pkg/wire.Message.MaxPayloadLength
+//@   params msg, pver
+//@   ensures result == maxPayload(msg)
+//@   modifies nothing
+//@ iface github.com/tokenized/pkg/wire.Message.BtcDecode
+//@   params msg, r, pver
+//@   modifies allheap
+
+//@ func readPayload
+//@   ensures [C14.payload-exact] result1 == nil ==> consumed(r) == old(consumed(r)) + length && len(result0) == length
+//@   ensures [C14.payload-monotone] consumed(r) >= old(consumed(r))
+//@   safety [C15]
+//@   modifies reads(r)
+//@   loop 1
+//@     modifies reads(r), elems(payload)
+//@     invariant 0 <= remaining && remaining <= length && consumed(r) == atentry(consumed(r)) + (length - remaining) && len(payload) == length - remaining && sameregion(payload)
+
+//@ func readMessage
+//@   requires header != nil && r != nil
+//@   ensures [C14.message-exact] result == nil ==> consumed(r) == old(consumed(r)) + old(header.Length)
+//@   ensures [C14.message-monotone] consumed(r) >= old(consumed(r))
+//@   safety [C15]
+//@   modifies allheap, reads(r)
